@@ -358,6 +358,55 @@ def register(gen, T):
         out.append(T.footer("TemplateConst"))
         return "".join(out)
 
+    @gen("ProtoParams")
+    def proto_params():
+        """which declaration of a function supplies what: the signature (number of parameters without a default) comes from
+        the first declaration, the printed parameter list of EVERY declaration from the definition"""
+        from rustsrc import lean_str
+        funcs = T.src("typer/src/typer/functions.rs")
+        hlsl = T.src("hlsl/src/ast_generate.rs")
+
+        def stmts(body, word):
+            """the statements / block headers (text between `;`, `{`, `}`) of `body` that mention `word`"""
+            out_ = []
+            for piece in re.split(r'[;{}]', body):
+                t = normws(piece)
+                if t and re.search(r'(?<![A-Za-z0-9_])' + re.escape(word) + r'(?![A-Za-z0-9_])', t):
+                    out_.append(t)
+            if not out_:
+                raise ExtractError("ProtoParams: no statement mentions `%s`" % word)
+            return out_
+
+        inner = fn_body(hlsl, "generate_function_inner")
+        root = fn_body(hlsl, "generate_root_definition")
+        param = fn_body(hlsl, "generate_function_param")
+        pf = fn_body(funcs, "parse_function")
+        sig = fn_body(funcs, "parse_function_signature")
+        bodyf = fn_body(funcs, "parse_function_body")
+        out = [T.header("ProtoParams", ["typer/src/typer/functions.rs", "hlsl/src/ast_generate.rs"])]
+
+        def emit(name, doc, items):
+            out.append("/-- %s -/\ndef %s : List String :=\n  %s\n\n" % (doc, name, T.lean_list(lean_str(t) for t in items)))
+
+        emit("exporterDecl", "`generate_function_inner`: every statement that mentions `decl` (the `FunctionImplementation`)",
+             stmts(inner, "decl"))
+        emit("exporterOnlyDeclare", "`generate_function_inner`: every statement that mentions `only_declare`",
+             stmts(inner, "only_declare"))
+        emit("exporterRootArms", "`generate_root_definition`: the statements that mention `FunctionDeclaration` or call "
+             "`generate_function` (every arm for a prototype: none of them drops or rewrites it)",
+             stmts(root, "FunctionDeclaration") + [t for t in stmts(root, "generate_function") if "FunctionDeclaration" not in t])
+        emit("exporterDefault", "`generate_function_param`: every statement that mentions `default_expr`",
+             stmts(param, "default_expr"))
+        emit("typerPredeclaration", "`parse_function`: every statement that mentions `id` (which declaration owns the function)",
+             stmts(pf, "id"))
+        emit("typerSignature", "`parse_function`: every statement that mentions `signature`", stmts(pf, "signature"))
+        emit("typerNonDefault", "`parse_function_signature`: every statement that mentions `non_default_params`",
+             stmts(sig, "non_default_params"))
+        emit("typerImplDefault", "`parse_function_body`: every statement that mentions `default_expr`",
+             stmts(bodyf, "default_expr"))
+        out.append(T.footer("ProtoParams"))
+        return "".join(out)
+
     @gen("NameReserve")
     def name_reserve():
         from rustsrc import lean_str, impl_fn_body
